@@ -27,14 +27,19 @@ def nsTls := s "urn:ietf:params:xml:ns:xmpp-tls"
 def nsVersion := s "jabber:iq:version"
 def nsIbb := s "http://jabber.org/protocol/ibb"
 def nsClient := s "jabber:client"
+def nsOob := s "jabber:x:oob"
+def nsMixMisc := s "urn:xmpp:mix:misc:0"
+def nsHashes := s "urn:xmpp:hashes:2"
+def nsTm := s "urn:xmpp:tm:1"
+def nsRtcpFb := s "urn:xmpp:jingle:apps:rtp:rtcp-fb:0"
 
 /-- element written with `writeDefaultNamespace`, looked up by tag and namespace -/
-def declHead (tag : String) (ns : Str) : Head := ⟨s tag, ns, true, false⟩
+def declHead (tag : String) (ns : Str) : Head := ⟨s tag, ns, true, false, false⟩
 /-- element written without namespace declaration (inherits `ns` from its parent), looked up by tag
 and namespace -/
-def inhHead (tag : String) (ns : Str) : Head := ⟨s tag, ns, false, false⟩
+def inhHead (tag : String) (ns : Str) : Head := ⟨s tag, ns, false, false, false⟩
 /-- element written without namespace declaration, looked up by tag only -/
-def anyHead (tag : String) (ns : Str) : Head := ⟨s tag, ns, false, true⟩
+def anyHead (tag : String) (ns : Str) : Head := ⟨s tag, ns, false, true, false⟩
 
 /-- `x == u"true" || x == u"1"` / `parseBoolean(x).value_or(false)`; written as `true` -/
 def boolTrue1 : FTy := .flag [s "true", s "1"]
@@ -89,7 +94,7 @@ def StarttlsProceed := nonza (declHead "proceed" nsTls) []
 /-! ### Bind 2, FAST, SASL 2 (src/base/QXmppSasl.cpp:203-650) -/
 
 def bind2FeatureFields : List Field := [
-  .child (inhHead "inline" nsBind2) [.many (inhHead "feature" nsBind2) [.attr (s "var") .str false]] .wrapOmit]
+  .child (inhHead "inline" nsBind2) [.many (inhHead "feature" nsBind2) [.attr (s "var") .str false] false] .wrapOmit]
 def Bind2Feature := nonza (declHead "bind" nsBind2) bind2FeatureFields
 
 def bind2RequestFields : List Field := [
@@ -104,7 +109,7 @@ def bind2BoundFields : List Field := [
   .child (declHead "enabled" nsSm) smEnabledFields .optional]
 def Bind2Bound := nonza (declHead "bound" nsBind2) bind2BoundFields
 
-def fastMechanisms : Field := .many (inhHead "mechanism" nsFast) [.text .str]
+def fastMechanisms : Field := .many (inhHead "mechanism" nsFast) [.text .str] false
 /-- today's `FastFeature`: `fromDom` reads `tls-0rtt`, `toXml` never writes it
 (src/base/QXmppSasl.cpp:278-301) -/
 def fastFeatureFieldsCode : List Field := [fastMechanisms, .attrReadOnly (s "tls-0rtt") boolTrue1]
@@ -119,7 +124,7 @@ def FastRequest := nonza (declHead "fast" nsFast) [
   .attr (s "count") (.optNat 64) true, .attr (s "invalidate") boolTrue1 true]
 
 def sasl2StreamFeatureFieldsWith (fast : List Field) : List Field := [
-  .many (inhHead "mechanism" nsSasl2) [.text .str],
+  .many (inhHead "mechanism" nsSasl2) [.text .str] false,
   .child (inhHead "inline" nsSasl2) [
     .child (declHead "bind" nsBind2) bind2FeatureFields .optional,
     .child (declHead "fast" nsFast) fast .optional,
@@ -137,7 +142,7 @@ def Sasl2Abort := nonza (declHead "abort" nsSasl2) [.textChild (inhHead "text" n
 
 /-- `QXmppExtendedAddress` (src/base/QXmppStanza.cpp:281-301): no type check, no namespace written -/
 def ExtendedAddress : Schema := {
-  head := ⟨s "address", [], false, false⟩, check := .unchecked, inh := [],
+  head := ⟨s "address", [], false, false, false⟩, check := .unchecked, inh := [],
   fields := [.attr (s "delivered") (.flag [s "true"]) true, .attr (s "desc") .str true,
     .attr (s "jid") .str false, .attr (s "type") .str false] }
 
@@ -153,6 +158,98 @@ def VersionIq := iqPayload (declHead "query" nsVersion) [
 /-- `QXmppIbbCloseIq` payload (src/base/QXmppIbbIq.cpp:127-139) -/
 def IbbCloseIq := iqPayload (declHead "close" nsIbb) [.attr (s "sid") .str false]
 
+/-! ### SASL / SASL 2 elements with Base64 bodies (src/base/QXmppSasl.cpp:81-186, 455-495, 581-630) -/
+
+def SaslAuth := nonza (declHead "auth" nsSasl) [.attr (s "mechanism") .str false, .text .b64]
+def SaslChallenge := nonza (declHead "challenge" nsSasl) [.text .b64]
+def SaslResponse := nonza (declHead "response" nsSasl) [.text .b64]
+def Sasl2Challenge := nonza (declHead "challenge" nsSasl2) [.text .b64]
+def Sasl2Response := nonza (declHead "response" nsSasl2) [.text .b64]
+
+/-- `<continue/>`: tasks are every child element of `<tasks/>` whatever its name; at least one is
+mandatory -/
+def Sasl2Continue := nonza (declHead "continue" nsSasl2) [
+  .textChild (inhHead "additional-data" nsSasl2) .b64 true,
+  .child (inhHead "tasks" nsSasl2)
+    [.many { tag := s "task", ns := nsSasl2, decl := false, anyNs := true, anyTag := true } [.text .str] true]
+    .wrapAlways,
+  .textChild (inhHead "text" nsSasl2) .str true]
+
+/-! ### further value classes -/
+
+/-- `QXmpp::HashAlgorithm` without `Unknown` (= absent / unknown string), src/base/QXmppHash.cpp:20-100 -/
+def hashAlgorithms : List Str := ["md2", "md5", "shake128", "shake256", "sha-1", "sha-224", "sha-256", "sha-384",
+  "sha-512", "sha3-256", "sha3-512", "blake2b-256", "blake2b-512"].map s
+
+/-- `QXmppHash` (src/base/QXmppHash.cpp:117-142): `algo` is always written, empty for `Unknown` -/
+def Hash := nonza (declHead "hash" nsHashes) [.attr (s "algo") (.enum hashAlgorithms) false, .text .b64]
+
+def unchecked (h : Head) (fields : List Field) : Schema := { head := h, fields := fields, check := .unchecked, inh := [] }
+
+/-- `QXmppMixInvitation` (src/base/QXmppMixInvitation.cpp:137-156) -/
+def MixInvitation := unchecked (declHead "invitation" nsMixMisc) [
+  .textChild (anyHead "inviter" nsMixMisc) .str true, .textChild (anyHead "invitee" nsMixMisc) .str true,
+  .textChild (anyHead "channel" nsMixMisc) .str true, .textChild (anyHead "token" nsMixMisc) .str true]
+
+/-- `QXmppOutOfBandUrl` (src/base/QXmppOutOfBandUrl.cpp:72-92): `<url/>` always written, `<desc/>` is a
+`std::optional<QString>` -/
+def OutOfBandUrl := unchecked (declHead "x" nsOob) [
+  .textChild (anyHead "url" nsOob) .str false, .child (anyHead "desc" nsOob) [.text .str] .optional]
+
+/-- `QXmppPubSubAffiliation` (src/base/QXmppPubSubAffiliation.cpp:29-36, 147-162) -/
+def PubSubAffiliation := unchecked ⟨s "affiliation", [], false, false, false⟩ [
+  .attr (s "affiliation") (.enumD (["none", "member", "outcast", "owner", "publisher", "publish-only"].map s) 0) false,
+  .attr (s "node") .str true, .attr (s "jid") .str true]
+
+/-- `QXmppSdpParameter` (src/base/QXmppJingleData.cpp:2192-2208) -/
+def SdpParameter := unchecked ⟨s "parameter", [], false, false, false⟩ [
+  .attr (s "name") .str true, .attr (s "value") .str true]
+
+/-- `QXmppJingleRtpFeedbackInterval` (src/base/QXmppJingleData.cpp:2651-2662) -/
+def RtpFeedbackInterval := unchecked (declHead "rtcp-fb-trr-int" nsRtcpFb) [.attr (s "value") (.nat 32) false]
+
+/-- `QXmppTrustMessageKeyOwner` (src/base/QXmppTrustMessages.cpp:266-300) -/
+def trustKeyOwnerFields : List Field := [
+  .attr (s "jid") .str false,
+  .many (anyHead "trust" nsTm) [.text .b64] false, .many (anyHead "distrust" nsTm) [.text .b64] false]
+def TrustMessageKeyOwner : Schema :=
+  { head := inhHead "key-owner" nsTm, fields := trustKeyOwnerFields, check := .unchecked, inh := nsTm }
+
+/-- `QXmppTrustMessageElement` (src/base/QXmppTrustMessages.cpp:126-152) -/
+def TrustMessageElement := unchecked (declHead "trust-message" nsTm) [
+  .attr (s "usage") .str false, .attr (s "encryption") .str false,
+  .many (inhHead "key-owner" nsTm) trustKeyOwnerFields false]
+
+/-! ### stream features (src/base/QXmppStreamFeatures.cpp:291-386) -/
+
+def nsSession := s "urn:ietf:params:xml:ns:xmpp-session"
+def nsAuthFeature := s "http://jabber.org/features/iq-auth"
+def nsRegisterFeature := s "http://jabber.org/features/iq-register"
+def nsPreApproval := s "urn:xmpp:features:pre-approval"
+def nsRosterVer := s "urn:xmpp:features:rosterver"
+def nsCompressFeature := s "http://jabber.org/features/compress"
+
+/-- `QXmppStreamFeatures::Mode`: absent = Disabled, `<x xmlns=…/>` = Enabled, with `<required/>` inside = Required -/
+def modeFeature (tag : String) (ns : Str) : Field :=
+  .child (declHead tag ns) [.flagChild (anyHead "required" ns)] .optional
+
+def streamFeaturesFieldsWith (sasl2 : List Field) : List Field := [
+  modeFeature "bind" nsBind, modeFeature "session" nsSession, modeFeature "auth" nsAuthFeature,
+  modeFeature "starttls" nsTls, modeFeature "sm" nsSm, modeFeature "csi" nsCsi, modeFeature "register" nsRegisterFeature,
+  .flagChild (declHead "sub" nsPreApproval), .flagChild (declHead "ver" nsRosterVer),
+  .child (declHead "compression" nsCompressFeature) [.many (anyHead "method" nsCompressFeature) [.text .str] false] .wrapOmit,
+  .child (declHead "mechanisms" nsSasl) [.many (anyHead "mechanism" nsSasl) [.text .str] false] .wrapOmit,
+  .child (declHead "authentication" nsSasl2) sasl2 .optional]
+
+/-- `<stream:features/>` is written with the stream's prefix and no declaration of its own: it is parsed
+inside `<stream:stream xmlns="jabber:client" xmlns:stream=…>`; `head.ns` is the default namespace in
+scope for its children.  `parse` has no type check. -/
+def streamFeaturesWith (sasl2 : List Field) : Schema :=
+  { head := ⟨s "stream:features", nsClient, false, false, false⟩, fields := streamFeaturesFieldsWith sasl2,
+    check := .unchecked, inh := nsClient }
+def StreamFeaturesCode := streamFeaturesWith (sasl2StreamFeatureFieldsWith fastFeatureFieldsCode)
+def StreamFeatures := streamFeaturesWith (sasl2StreamFeatureFieldsWith fastFeatureFields)
+
 /-- every modelled class by the name the harness uses; `Code` variants are what runs today -/
 def all : List (String × Schema) := [
   ("SmEnable", SmEnable), ("SmEnabled", SmEnabled), ("SmResume", SmResume), ("SmResumed", SmResumed),
@@ -161,7 +258,14 @@ def all : List (String × Schema) := [
   ("Bind2Feature", Bind2Feature), ("Bind2Request", Bind2Request), ("Bind2Bound", Bind2Bound),
   ("FastFeature", FastFeatureCode), ("FastTokenRequest", FastTokenRequest), ("FastRequest", FastRequest),
   ("Sasl2StreamFeature", Sasl2StreamFeatureCode), ("Sasl2Failure", Sasl2Failure), ("Sasl2Abort", Sasl2Abort),
-  ("ExtendedAddress", ExtendedAddress), ("BindIq", BindIq), ("VersionIq", VersionIq), ("IbbCloseIq", IbbCloseIq)]
+  ("ExtendedAddress", ExtendedAddress), ("BindIq", BindIq), ("VersionIq", VersionIq), ("IbbCloseIq", IbbCloseIq),
+  ("SaslAuth", SaslAuth), ("SaslChallenge", SaslChallenge), ("SaslResponse", SaslResponse),
+  ("Sasl2Challenge", Sasl2Challenge), ("Sasl2Response", Sasl2Response), ("Sasl2Continue", Sasl2Continue),
+  ("Hash", Hash), ("MixInvitation", MixInvitation), ("OutOfBandUrl", OutOfBandUrl),
+  ("PubSubAffiliation", PubSubAffiliation), ("SdpParameter", SdpParameter),
+  ("RtpFeedbackInterval", RtpFeedbackInterval),
+  ("TrustMessageKeyOwner", TrustMessageKeyOwner), ("TrustMessageElement", TrustMessageElement),
+  ("StreamFeatures", StreamFeaturesCode)]
 
 def find (name : String) : Option Schema := (all.find? (·.1 == name)).map (·.2)
 
